@@ -107,14 +107,19 @@ func (st *SplitTracker) AvailableSplits() []SourceSplitterShard {
 	return available
 }
 
-// AssignedSplitsWithLastID returns the assigned splits together with the
-// LastAssignedSplitID that belongs to them (one consistent view for a
-// checkpoint).
-func (st *SplitTracker) AssignedSplitsWithLastID() ([]SourceSplitterShard, string) {
+// CheckpointState returns the assigned splits, the known splits that are not
+// assigned yet, and the LastAssignedSplitID that belongs to them (one
+// consistent view for a checkpoint).
+func (st *SplitTracker) CheckpointState() (assigned, withheld []SourceSplitterShard, lastAssignedSplitID string) {
 	st.mu.Lock()
 	defer st.mu.Unlock()
 
-	return st.assignedSplitsLocked(), st.LastAssignedSplitID
+	for _, split := range st.knownSplits.All() {
+		if _, ok := st.assignedSplits[split.ShardID]; !ok {
+			withheld = append(withheld, split)
+		}
+	}
+	return st.assignedSplitsLocked(), withheld, st.LastAssignedSplitID
 }
 
 func (st *SplitTracker) AssignedSplits() []SourceSplitterShard {
